@@ -130,7 +130,8 @@ const db = "db0"
 
 func newMachine(c *ev.Case, cpus int, fail func(format string, a ...any)) *machine {
 	m := &machine{st: model.NewStore(), c: c, fail: fail, visible: map[string]bool{}, dropped: map[string]bool{}}
-	m.srv = bb.NewServer(bb.Options{Prop: 1, Instance: 0, CPUs: cpus, Knobs: map[string]string{}})
+	// the harness owns every flush: no background flush of a cold memtable opens a two-log-generation window (known finding) behind its back
+	m.srv = bb.NewServer(bb.Options{Prop: 1, Instance: 0, CPUs: cpus, Knobs: map[string]string{"write-cold-duration": "1h"}})
 	m.srv.MustStart()
 	m.srv.MustExec("", "create database "+db)
 	c.Op(Op{Kind: "start", K: cpus})
